@@ -22,6 +22,8 @@ FOCI = {
  'cooperating': "At least two of the three must consist of TWO COOPERATING EDITS in different functions (or different files) that each look harmless on their own - a value computed in one place and interpreted slightly differently in another, a check moved from a callee to only some of its callers, a default changed here and relied upon there, state initialised in a constructor and assumed elsewhere - so that a reviewer reading either hunk alone would approve it.",
  'free': "No particular focus this round: pick whatever you judge most likely to slip past a careful reviewer AND past a test harness that already exercises the obvious paths with random fragmentation, random faults and random values. Think about code the main files call in OTHER modules, about rarely used public entry points, and about conditions that need three or more things to coincide.",
  'commit': "This round the three changes should look like REAL COMMITS rather than point mutations: each implements a plausible improvement a maintainer might merge (a refactoring that removes duplication, a hardening against huge inputs, a small performance optimisation, better error messages, RFC conformance tightening, a new helper used in several places) of roughly 30-120 changed lines across one or more functions - and somewhere inside that improvement sits a subtle defect that breaks the property under specific circumstances. The defect must not be the point of the commit; a reviewer skimming the diff should see a reasonable change.",
+ 'multi': "This round the three changes should look like REAL COMMITS (a refactoring, a hardening, a small optimisation, a new helper - roughly 30-120 changed lines with the defect hidden inside a reasonable change), and at least two of the three must need MORE THAN ONE PARTY OR MORE THAN ONE ROUND to manifest: two connections to the same server that are busy at the same time (state that a change accidentally shares between connections, a resource one connection holds while another needs it, a notification reaching several connections), several clients, a client that is kept running across several updates through its long-running entry point rather than single steps, something left behind by one exchange that only matters in a later one.",
+ 'sizes': "This round the three changes should look like REAL COMMITS (a refactoring, a hardening, a small optimisation, a new helper - roughly 30-120 changed lines with the defect hidden inside a reasonable change), and at least two of the three must need a RARE BUT LEGAL SIZE OR COUNT to manifest: values in the kilobyte to hundred-kilobyte range where most are a few dozen octets (a very long URI, text, name or key, very many elements or items), sizes that straddle an internal buffer or chunk size the change introduces, counts around 2^8/2^16, many small pieces arriving back to back.",
  'boundary': "At least two of the three must need an UNUSUAL BUT VALID value to manifest (sizes and counts at 0, 1, 2^8, 2^16, 2^32 boundaries, longest/shortest legal forms, rarely used variants, a legal but rarely used spelling) together with a particular path through the code.",
 }
 out = []
